@@ -61,6 +61,9 @@ CHECKS = {
  "C11": ("compiler sanitizers (ASan + UBSan + float-cast-overflow via clang-14, runtime preloaded into the stock interpreter) and hardened libstdc++ (_GLIBCXX_ASSERTIONS) on builds of the working tree's engine, driven through the Python API by the workloads of C02/C07/C09/C10/C14 and degenerate scripts",
          "Two instrumented builds of the current engine sources run ~1200 scripts / lifecycle sequences each in the quick tier (degenerate grids and graphs, all policies, all init modes, empty tails of the sample list); sanitizer report blocks are parsed from log files and de-duplicated by kind and first engine frame, hardened-library aborts are attributed to the case in flight.",
          "Red-zone tools miss intra-object and far overflows; leaks not claimed; MemorySanitizer not usable (CPython/numpy/libstdc++ uninstrumented).", "DESIGN.md 2/C11"),
+ "C04": ("metamorphic + absolute reference monitor: several renderings of one SI description (units declared or inherited at every nesting level, all 1100 systems, bare / string / UnitValue / unit-array forms, constructor and dictionary readers) must give the same state, rate of change and Euler trajectory; icontract conversion contracts run underneath",
+         "Each physical description is rendered 4-8 times with unit systems drawn per nesting level and per field form, plus a random output units system; state, chemostats, compute_dstatedt and a 20-step Euler trajectory are converted to (molecule, s) by the harness' own SI table and compared between renderings and with the description / reference rate law (1e-9 of the magnitudes involved); stochastic output must come back in the requested units.",
+         "Rounding-proof step grid: requested times and t_max at (k+1/2) dt. Renderings whose bare numbers leave 1e+-250 are skipped and counted.", "DESIGN.md 2/C04"),
 }
 
 PENDING = {
